@@ -845,3 +845,65 @@ func MultiC12(r *rand.Rand, n int) []*Case {
 	}
 	return out
 }
+
+// ---------------------------------------------------------------- C11: calls that wait for a type
+
+// PendingC11 (7ac80cc): a derive call whose argument is itself a derive call has no argument type in the
+// first pass; its NAME is reserved for that pass, so that no helper another plugin asks for (and no
+// -autoname rename) takes it. The waiting calls here are named by the BARE prefix — the first name
+// newName tries — of the plugin that deriveUnique / deriveHash ask for helpers. No clash: every flag
+// combination must succeed and the package must type-check.
+func PendingC11() []*Case {
+	decl := "type S struct {\n\tA string\n}"
+	typs := []TypeSpec{
+		{Go: "[]string", Wire: "(sl string)", Decl: decl},
+		{Go: "map[string]int", Wire: "(m string int)", Decl: decl},
+		{Go: "map[int]string", Wire: "(m int string)", Decl: decl},
+		{Go: "*S", Wire: "(p (nm 0 S (st string)))", Decl: decl},
+	}
+	plugins := Plugins("derive", nil)
+	nested := func(plugin, name string, typ int) CallSpec {
+		c := Call(plugin, name, typ)
+		c.Arity = 1
+		c.Inner = "deriveKeysOf"
+		return c
+	}
+	uniq := Call("unique", "deriveUnique", 0)
+	hash := Call("hash", "deriveHashOf", 3)
+	var out []*Case
+	add := func(calls ...CallSpec) {
+		for split := 0; split < 2; split++ {
+			c := &Case{ID: fmt.Sprintf("p%d", len(out)), Stream: "pending", Types: typs, Plugins: plugins, Variants: AllVariants,
+				NoModel: true, OtherFile: "z_other.go"}
+			if split == 1 && len(calls) > 1 {
+				c.Files = []FileSpec{{Name: "a.go", Calls: calls[:1]}, {Name: "b.go", Calls: calls[1:]}}
+			} else {
+				c.Files = []FileSpec{{Name: "a.go", Calls: calls}}
+			}
+			out = append(out, c)
+		}
+	}
+	for _, mt := range []int{1, 2} {
+		add(uniq, nested("set", "deriveSet", mt))
+		add(nested("set", "deriveSet", mt), uniq)
+		add(hash, nested("hash", "deriveHash", mt))
+		add(nested("hash", "deriveHash", mt), hash)
+		add(uniq, hash, nested("set", "deriveSet", mt), nested("hash", "deriveHash", mt))
+		add(uniq, nested("sort", "deriveSort", mt))
+	}
+	// the witness of F78: three levels deriveKeys(deriveSet(deriveFmap(…))) next to deriveUnique, whose helpers
+	// are deriveKeys / deriveSet for OTHER types; the waiting calls bear the bare prefixes
+	chain := func(elem, res, conv string) string {
+		return fmt.Sprintf("package p\n\nfunc Chain(xs []%s, conv func(%s) %s) []%s {\n\tys := deriveFmap(conv, xs)\n\ts := deriveSet(ys)\n\treturn deriveKeys(s)\n}\n", elem, elem, res, res)
+	}
+	for i, v := range [][2]string{{"int", "string"}, {"string", "int"}} {
+		ut := []TypeSpec{{Go: "[]" + v[0], Wire: "(sl " + v[0] + ")"}}
+		for _, fname := range []string{"0_chain.go", "w_chain.go"} {
+			c := &Case{ID: fmt.Sprintf("pc%d%s", i, fname[:1]), Stream: "pending", Types: ut, Plugins: plugins, Variants: AllVariants,
+				NoModel: true, OtherFile: "z_other.go", Files: []FileSpec{{Name: "a.go", Calls: []CallSpec{Call("unique", "deriveUnique", 0)}}},
+				Extra: map[string]string{"p/" + fname: chain(v[0], v[1], "")}}
+			out = append(out, c)
+		}
+	}
+	return out
+}
